@@ -143,6 +143,11 @@ def concretize(v, me, depth=0):
     if isinstance(v, Out):
         return ('exc', type(v.exc).__name__) if v.exc is not None else \
             ('ok', concretize(v.value, me, depth + 1))
+    if isinstance(v, Obj):
+        o = Obj()
+        for k, x in v.__dict__.items():
+            o.__dict__[k] = concretize(x, me, depth + 1)
+        return o
     return v
 
 
@@ -166,6 +171,8 @@ def canon(v, depth=0):
         return ['Obj', canon({k: x for k, x in v.__dict__.items() if not k.startswith('_')}, depth + 1)]
     if isinstance(v, type):
         return '<class %s>' % v.__name__
+    if callable(v) and not isinstance(v, Obj):
+        return '<callable>'
     if isinstance(v, core.Opaque):
         return '<opaque %s>' % v.tag
     if type(v).__name__ == 'Match' and type(v).__module__ == 're':
